@@ -1,11 +1,1092 @@
-//! C20 — check not built yet.
-use mc_core::Args;
-use serde_json::Value;
+//! C20 — chain-history tree roots match a from-scratch recomputation.
+//!
+//! Subject: `zcash_history::{Tree, Entry, Version (V1/V2/V3)}` and
+//! `zcash_encoding::CompactSize::{read,write}_unbounded`.
+//!
+//! Model checking of the state graph over the leaf count n (the tree shape depends on nothing
+//! else): states 1..=N per (version, leaf profile); transitions `append` (n -> n+1) and `truncate`
+//! (n -> n-1, n >= 2). Every transition is executed on the real `Tree` built (i) fully loaded and
+//! (ii) as the minimal partial view (`Tree::new(len, peaks, extra)` holding exactly the nodes the
+//! operation reads, computed by the reference MMR); every minimal view with one needed node
+//! removed must fail with `ExpectedInMemory` naming that node. In addition every operation
+//! sequence of length <= L from every base n <= B is run on one `Tree` object (whose internal
+//! state — generated nodes, stored map — is history dependent) with *fresh* leaves, fully loaded
+//! and on the partial view holding what the sequence needs.
+//!
+//! Oracle: `refmmr.rs`, an independent rebuild from all current leaves (perfect sub-trees per set
+//! bit of n, left-fold bagging, field-wise combination, BLAKE2b-256 with "ZcashHistory" || branch
+//! id); append-then-truncate and truncate-then-append restore root and length; full == partial;
+//! every node produced round-trips through `to_bytes`/`from_bytes` (and `Entry::write`/`read`);
+//! truncations and byte rewrites of node encodings are accepted iff the documented rule accepts
+//! them (canonical compact sizes, ascending representable height range), never a panic.
 
-pub fn replay(_kind: &str, _case: &Value) -> Result<(), String> {
-    Err("C20: check not built".into())
+mod lattice;
+mod refmmr;
+
+use lattice::PROFILES;
+use mc_core::explore::{bfs, Limits, Subject};
+use mc_core::{catch, Args, Run};
+use primitive_types::U256;
+use rayon::prelude::*;
+use refmmr::{all_subtrees, array_len, children, peaks, pos, root_over, truncate_needs, Forest, RNode};
+use serde_json::{json, Value};
+use std::collections::BTreeMap;
+use std::marker::PhantomData;
+use std::sync::{Arc, Mutex};
+use zcash_history::{Entry, EntryLink, Error as HErr, NodeData, NodeDataV2, NodeDataV3, Tree, Version, V1, V2, V3};
+
+// ---------------------------------------------------------------------------------------------
+// glue between the model's nodes and the crate's node types
+
+trait Ver: Version + 'static {
+    const V: u8;
+    fn real(r: &RNode) -> Self::NodeData;
+    fn model(d: &Self::NodeData) -> RNode;
 }
 
-pub fn run(_args: &Args) -> i32 {
-    mc_core::machinery_error("C20: check not built")
+fn real_v1(r: &RNode) -> NodeData {
+    NodeData {
+        consensus_branch_id: r.branch,
+        subtree_commitment: r.commitment,
+        start_time: r.start_time,
+        end_time: r.end_time,
+        start_target: r.start_target,
+        end_target: r.end_target,
+        start_sapling_root: r.start_sapling_root,
+        end_sapling_root: r.end_sapling_root,
+        subtree_total_work: U256(r.work),
+        start_height: r.start_height,
+        end_height: r.end_height,
+        sapling_tx: r.sapling_tx,
+    }
+}
+fn model_v1(d: &NodeData) -> RNode {
+    RNode {
+        branch: d.consensus_branch_id,
+        commitment: d.subtree_commitment,
+        start_time: d.start_time,
+        end_time: d.end_time,
+        start_target: d.start_target,
+        end_target: d.end_target,
+        start_sapling_root: d.start_sapling_root,
+        end_sapling_root: d.end_sapling_root,
+        work: d.subtree_total_work.0,
+        start_height: d.start_height,
+        end_height: d.end_height,
+        sapling_tx: d.sapling_tx,
+        ..Default::default()
+    }
+}
+impl Ver for V1 {
+    const V: u8 = 1;
+    fn real(r: &RNode) -> NodeData {
+        real_v1(r)
+    }
+    fn model(d: &NodeData) -> RNode {
+        model_v1(d)
+    }
+}
+impl Ver for V2 {
+    const V: u8 = 2;
+    fn real(r: &RNode) -> NodeDataV2 {
+        NodeDataV2 { v1: real_v1(r), start_orchard_root: r.start_orchard_root, end_orchard_root: r.end_orchard_root, orchard_tx: r.orchard_tx }
+    }
+    fn model(d: &NodeDataV2) -> RNode {
+        RNode { start_orchard_root: d.start_orchard_root, end_orchard_root: d.end_orchard_root, orchard_tx: d.orchard_tx, ..model_v1(&d.v1) }
+    }
+}
+impl Ver for V3 {
+    const V: u8 = 3;
+    fn real(r: &RNode) -> NodeDataV3 {
+        NodeDataV3 {
+            v2: <V2 as Ver>::real(r),
+            start_ironwood_root: r.start_ironwood_root,
+            end_ironwood_root: r.end_ironwood_root,
+            ironwood_tx: r.ironwood_tx,
+        }
+    }
+    fn model(d: &NodeDataV3) -> RNode {
+        RNode { start_ironwood_root: d.start_ironwood_root, end_ironwood_root: d.end_ironwood_root, ironwood_tx: d.ironwood_tx, ..<V2 as Ver>::model(&d.v2) }
+    }
+}
+
+/// Zero the fields a version does not have.
+fn norm(ver: u8, mut n: RNode) -> RNode {
+    if ver < 2 {
+        n.start_orchard_root = [0; 32];
+        n.end_orchard_root = [0; 32];
+        n.orchard_tx = 0;
+    }
+    if ver < 3 {
+        n.start_ironwood_root = [0; 32];
+        n.end_ironwood_root = [0; 32];
+        n.ironwood_tx = 0;
+    }
+    n
+}
+
+fn leaf(ver: u8, profile: &str, i: u64, stamp: u64, total: u64) -> RNode {
+    norm(ver, lattice::leaf(profile, i, stamp, total))
+}
+
+#[derive(Clone, Debug)]
+struct Cfg {
+    ver: u8,
+    profile: String,
+    /// largest leaf count reachable in this run mode
+    total: u64,
+}
+
+impl Cfg {
+    fn forest(&self) -> Result<Forest, String> {
+        let leaves: Vec<RNode> = (0..self.total).map(|i| leaf(self.ver, &self.profile, i, 0, self.total)).collect();
+        Forest::new(self.ver, &leaves).ok_or_else(|| "leaf lattice overflows a counter (machinery)".to_string())
+    }
+    fn json(&self) -> Value {
+        json!({"ver": self.ver, "profile": self.profile, "total": self.total})
+    }
+    fn from_json(v: &Value) -> Result<Cfg, String> {
+        let profile = v["profile"].as_str().ok_or("no profile")?.to_string();
+        if !PROFILES.contains(&profile.as_str()) {
+            return Err("unknown profile".into());
+        }
+        Ok(Cfg { ver: v["ver"].as_u64().ok_or("no ver")? as u8, profile, total: v["total"].as_u64().ok_or("no total")? })
+    }
+    fn tag(&self) -> String {
+        format!("V{}/{}", self.ver, self.profile)
+    }
+}
+
+macro_rules! by_version {
+    ($ver:expr, $f:ident ( $($a:expr),* )) => {
+        match $ver {
+            1 => $f::<V1>($($a),*),
+            2 => $f::<V2>($($a),*),
+            3 => $f::<V3>($($a),*),
+            v => Err(format!("unknown version {v}")),
+        }
+    };
+}
+
+// ---------------------------------------------------------------------------------------------
+// building views of the real tree from the reference array
+
+fn entry<V: Ver>(forest: &Forest, f: u64, b: u32) -> (u32, Entry<V>) {
+    let data = V::real(forest.node(f, b));
+    let e = if b == 0 {
+        Entry::new_leaf(data)
+    } else {
+        let (l, r) = children(f, b);
+        Entry::new(data, EntryLink::Stored(pos(l.0, l.1)), EntryLink::Stored(pos(r.0, r.1)))
+    };
+    (pos(f, b), e)
+}
+
+fn view<V: Ver>(forest: &Forest, n: u64, extra: &[(u64, u32)]) -> Tree<V> {
+    let pk = peaks(n);
+    let peaks_v: Vec<(u32, Entry<V>)> = pk.iter().map(|(f, b)| entry::<V>(forest, *f, *b)).collect();
+    let extra_v: Vec<(u32, Entry<V>)> = extra.iter().filter(|x| !pk.contains(x)).map(|(f, b)| entry::<V>(forest, *f, *b)).collect();
+    Tree::new(array_len(n), peaks_v, extra_v)
+}
+
+fn full_extra(n: u64) -> Vec<(u64, u32)> {
+    all_subtrees(n)
+}
+
+/// Nodes beyond the peaks that one truncation of an n-leaf tree reads (none for odd n: the last
+/// peak is the leaf itself).
+fn minimal_extra(n: u64) -> Vec<(u64, u32)> {
+    truncate_needs(n)
+}
+
+fn link_str(l: EntryLink) -> String {
+    match l {
+        EntryLink::Stored(i) => format!("S{i}"),
+        EntryLink::Generated(i) => format!("G{i}"),
+    }
+}
+
+fn stored_idx(l: EntryLink) -> Option<u32> {
+    match l {
+        EntryLink::Stored(i) => Some(i),
+        EntryLink::Generated(_) => None,
+    }
+}
+
+fn diff(a: &RNode, b: &RNode) -> String {
+    let mut v = Vec::new();
+    macro_rules! f {
+        ($($x:ident),*) => { $( if a.$x != b.$x { v.push(stringify!($x)); } )* };
+    }
+    f!(branch, commitment, start_time, end_time, start_target, end_target, start_sapling_root, end_sapling_root, work, start_height, end_height, sapling_tx,
+       start_orchard_root, end_orchard_root, orchard_tx, start_ironwood_root, end_ironwood_root, ironwood_tx);
+    v.join(",")
+}
+
+/// Root data, array length and leaf count as the real tree reports them.
+fn observe<V: Ver>(t: &Tree<V>) -> Result<(RNode, u32, u64), String> {
+    let r = t.root_node().map_err(|e| format!("root_node: {e:?}"))?;
+    Ok((V::model(r.data()), t.len(), r.node().leaf_count()))
+}
+
+fn expect_state<V: Ver>(t: &Tree<V>, want_root: &RNode, n: u64, what: &str) -> Result<(), String> {
+    let (root, len, leaves) = observe(t).map_err(|e| format!("{what}: {e}"))?;
+    if &root != want_root {
+        return Err(format!("{what}: root node differs from the from-scratch rebuild over {n} leaves in [{}]", diff(&root, want_root)));
+    }
+    if len != array_len(n) {
+        return Err(format!("{what}: len() = {len}, the array of {n} leaves has {} entries", array_len(n)));
+    }
+    if leaves != n {
+        return Err(format!("{what}: root leaf count {leaves}, expected {n}"));
+    }
+    Ok(())
+}
+
+/// `from_bytes(to_bytes(node)) == node` for node data and for the array entry.
+fn roundtrip<V: Ver>(want: &RNode, kids: Option<(u32, u32)>) -> Result<(), String> {
+    let data = V::real(want);
+    let bytes = V::to_bytes(&data);
+    let expect = refmmr::serialize(V::V, want);
+    if bytes != expect {
+        return Err(format!("to_bytes differs from the documented layout: {} vs {}", hex::encode(&bytes), hex::encode(&expect)));
+    }
+    let back = V::from_bytes(want.branch, &bytes).map_err(|e| format!("from_bytes(to_bytes(node)) failed: {e:?} for {}", hex::encode(&bytes)))?;
+    if &V::model(&back) != want {
+        return Err(format!("from_bytes(to_bytes(node)) != node in [{}]", diff(&V::model(&back), want)));
+    }
+    if V::hash(&data) != refmmr::node_hash(want.branch, &expect) {
+        return Err("Version::hash differs from BLAKE2b-256(ZcashHistory || branch)(serialization)".into());
+    }
+    let e: Entry<V> = match kids {
+        None => Entry::new_leaf(data),
+        Some((l, r)) => Entry::new(data, EntryLink::Stored(l), EntryLink::Stored(r)),
+    };
+    let mut eb = Vec::new();
+    e.write(&mut eb).map_err(|e| format!("Entry::write: {e:?}"))?;
+    let mut want_eb = match kids {
+        None => vec![1u8],
+        Some((l, r)) => {
+            let mut v = vec![0u8];
+            v.extend_from_slice(&l.to_le_bytes());
+            v.extend_from_slice(&r.to_le_bytes());
+            v
+        }
+    };
+    want_eb.extend_from_slice(&expect);
+    if eb != want_eb {
+        return Err("Entry::write differs from kind byte || links || node data".into());
+    }
+    let e2 = Entry::<V>::from_bytes(want.branch, &eb).map_err(|e| format!("Entry::from_bytes(write(entry)) failed: {e:?}"))?;
+    let kids2 = if e2.leaf() { None } else { Some((e2.left().ok().and_then(stored_idx), e2.right().ok().and_then(stored_idx))) };
+    if kids2 != kids.map(|(l, r)| (Some(l), Some(r))) || &V::model(e2.data()) != want {
+        return Err("Entry::from_bytes(write(entry)) != entry".into());
+    }
+    Ok(())
+}
+
+// ---------------------------------------------------------------------------------------------
+// one state / one transition of the graph (used by the search and by replay)
+
+#[derive(Clone, Copy, Debug, PartialEq, Eq)]
+enum Op {
+    Append,
+    Truncate,
+}
+
+/// Outcome labels collected while checking (for the diversity guard).
+type Outs = Vec<String>;
+
+fn check_state<V: Ver>(forest: &Forest, n: u64, outs: &mut Outs) -> Result<(), String> {
+    let r = catch(|| -> Result<(), String> {
+        let want = forest.root(n).ok_or("model overflow (machinery)")?;
+        expect_state(&view::<V>(forest, n, &full_extra(n)), &want, n, "fully loaded view")?;
+        expect_state(&view::<V>(forest, n, &minimal_extra(n)), &want, n, "minimal partial view")?;
+        expect_state(&view::<V>(forest, n, &[]), &want, n, "peaks-only view")?;
+        // every node the n-th leaf added, and the root, round-trip
+        let prev = if n > 1 { array_len(n - 1) } else { 0 };
+        for (f, b) in all_subtrees(n) {
+            if pos(f, b) >= prev {
+                let kids = (b > 0).then(|| {
+                    let (l, r) = children(f, b);
+                    (pos(l.0, l.1), pos(r.0, r.1))
+                });
+                roundtrip::<V>(forest.node(f, b), kids).map_err(|e| format!("node {} of the array: {e}", pos(f, b)))?;
+            }
+        }
+        roundtrip::<V>(&want, None).map_err(|e| format!("root of {n} leaves: {e}"))?;
+        Ok(())
+    });
+    outs.push(format!("state:peaks{}", peaks(n).len().min(4)));
+    match r {
+        Ok(x) => x,
+        Err(p) => Err(format!("panic: {p}")),
+    }
+}
+
+fn err_str(e: &HErr) -> String {
+    match e {
+        HErr::ExpectedInMemory(l) => format!("ExpectedInMemory({})", link_str(*l)),
+        HErr::ExpectedNode(l) => format!("ExpectedNode({})", l.map(link_str).unwrap_or_default()),
+    }
+}
+
+/// Append leaf `new` to `t` (n leaves before); compare everything observable with the model.
+fn do_append<V: Ver>(t: &mut Tree<V>, new: &RNode, n: u64, want_root: &RNode, want_new: &[(RNode, Option<(u32, u32)>)], what: &str) -> Result<(), String> {
+    let links = t.append_leaf(V::real(new)).map_err(|e| format!("{what}: append_leaf at {n} leaves failed: {}", err_str(&e)))?;
+    let first = array_len(n);
+    let got: Vec<String> = links.iter().map(|l| link_str(*l)).collect();
+    let want_links: Vec<String> = (0..want_new.len() as u32).map(|i| format!("S{}", first + i)).collect();
+    if got != want_links {
+        return Err(format!("{what}: append_leaf at {n} leaves returned links {:?}, the array grows by {:?}", got, want_links));
+    }
+    for (i, (node, kids)) in want_new.iter().enumerate() {
+        let r = t.resolve_link(links[i]).map_err(|e| format!("{what}: appended link does not resolve: {}", err_str(&e)))?;
+        if &V::model(r.data()) != node {
+            return Err(format!("{what}: appended node {} differs from the model in [{}]", got[i], diff(&V::model(r.data()), node)));
+        }
+        let k = if r.node().leaf() { None } else { Some((r.node().left().ok().and_then(stored_idx), r.node().right().ok().and_then(stored_idx))) };
+        if k != kids.map(|(l, r)| (Some(l), Some(r))) {
+            return Err(format!("{what}: appended node {} has children {:?}, the array layout says {:?}", got[i], k, kids));
+        }
+    }
+    expect_state(t, want_root, n + 1, &format!("{what}: after append at {n} leaves"))
+}
+
+fn do_truncate<V: Ver>(t: &mut Tree<V>, n: u64, want_root: &RNode, what: &str) -> Result<(), String> {
+    let cnt = t.truncate_leaf().map_err(|e| format!("{what}: truncate_leaf at {n} leaves failed: {}", err_str(&e)))?;
+    let want = array_len(n) - array_len(n - 1);
+    if cnt != want {
+        return Err(format!("{what}: truncate_leaf at {n} leaves returned {cnt}, the array shrinks by {want}"));
+    }
+    expect_state(t, want_root, n - 1, &format!("{what}: after truncate at {n} leaves"))
+}
+
+/// The entries the (n+1)-th leaf adds to the array, in array order.
+fn new_entries(node_of: &dyn Fn(u64, u32) -> Option<RNode>, n: u64) -> Option<Vec<(RNode, Option<(u32, u32)>)>> {
+    let first = array_len(n);
+    let mut v = Vec::new();
+    for (f, b) in all_subtrees(n + 1) {
+        if pos(f, b) >= first {
+            let kids = (b > 0).then(|| {
+                let (l, r) = children(f, b);
+                (pos(l.0, l.1), pos(r.0, r.1))
+            });
+            v.push((node_of(f, b)?, kids));
+        }
+    }
+    Some(v)
+}
+
+fn check_transition<V: Ver>(forest: &Forest, n: u64, op: Op, outs: &mut Outs) -> Result<(), String> {
+    let r = catch(|| -> Result<(), String> {
+        let here = forest.root(n).ok_or("model overflow (machinery)")?;
+        match op {
+            Op::Append => {
+                let new = forest.node(n, 0).clone();
+                let want = forest.root(n + 1).ok_or("model overflow (machinery)")?;
+                let added = new_entries(&|f, b| Some(forest.node(f, b).clone()), n).unwrap();
+                for (what, extra) in [("fully loaded", full_extra(n)), ("peaks-only view", vec![])] {
+                    let mut t = view::<V>(forest, n, &extra);
+                    do_append(&mut t, &new, n, &want, &added, what)?;
+                    // append-then-truncate restores root and length
+                    do_truncate(&mut t, n + 1, &here, &format!("{what}, append-then-truncate"))?;
+                }
+                outs.push(format!("append:new-nodes{}", added.len().min(4)));
+            }
+            Op::Truncate if n == 1 => {
+                // not in the property's domain (nothing would be left); recorded only
+                let mut t = view::<V>(forest, 1, &[]);
+                match t.truncate_leaf() {
+                    Ok(c) => outs.push(format!("truncate@1:ok({c})")),
+                    Err(e) => outs.push(format!("truncate@1:{}", err_str(&e).split('(').next().unwrap_or(""))),
+                }
+            }
+            Op::Truncate => {
+                let want = forest.root(n - 1).ok_or("model overflow (machinery)")?;
+                let again = forest.node(n - 1, 0).clone();
+                let added = new_entries(&|f, b| Some(forest.node(f, b).clone()), n - 1).unwrap();
+                let need = minimal_extra(n);
+                for (what, extra) in [("fully loaded", full_extra(n)), ("minimal partial view", need.clone())] {
+                    let mut t = view::<V>(forest, n, &extra);
+                    do_truncate(&mut t, n, &want, what)?;
+                    // truncate-then-append restores root and length
+                    do_append(&mut t, &again, n - 1, &here, &added, &format!("{what}, truncate-then-append"))?;
+                }
+                outs.push(format!("truncate:removed{}:needs{}", (array_len(n) - array_len(n - 1)).min(4), need.len().min(6)));
+                // every minimal view with one needed node removed: the documented failure, and
+                // never a wrong root
+                for gone in &need {
+                    let extra: Vec<(u64, u32)> = need.iter().copied().filter(|x| x != gone).collect();
+                    let mut t = view::<V>(forest, n, &extra);
+                    let gi = pos(gone.0, gone.1);
+                    match t.truncate_leaf() {
+                        Err(HErr::ExpectedInMemory(EntryLink::Stored(i))) if i == gi => outs.push("minus-one:ExpectedInMemory".into()),
+                        Err(e) => return Err(format!("view of {n} leaves without needed node {gi}: truncate_leaf failed with {}, expected ExpectedInMemory(S{gi})", err_str(&e))),
+                        Ok(_) => match t.root_node() {
+                            // the operation itself did not read the node (n = 2: the remaining leaf
+                            // becomes the root unread); observing the root then fails as documented
+                            Err(HErr::ExpectedInMemory(EntryLink::Stored(i))) if i == gi => outs.push("minus-one:ExpectedInMemory-at-root".into()),
+                            _ => {
+                                // only a wrong result is a violation; "did not need it after all" is recorded
+                                expect_state(&t, &want, n - 1, &format!("view of {n} leaves without needed node {gi}: truncate_leaf succeeded"))?;
+                                outs.push("minus-one:not-needed".into());
+                            }
+                        },
+                    }
+                }
+            }
+        }
+        Ok(())
+    });
+    match r {
+        Ok(x) => x,
+        Err(p) => Err(format!("panic: {p}")),
+    }
+}
+
+// ---------------------------------------------------------------------------------------------
+// operation sequences on one Tree object, with fresh leaves
+
+fn ops_from_str(s: &str) -> Result<Vec<Op>, String> {
+    s.chars()
+        .map(|c| match c {
+            'A' => Ok(Op::Append),
+            'T' => Ok(Op::Truncate),
+            _ => Err(format!("bad op {c}")),
+        })
+        .collect()
+}
+fn ops_to_str(o: &[Op]) -> String {
+    o.iter().map(|x| if *x == Op::Append { 'A' } else { 'T' }).collect()
+}
+
+/// What the partial view must hold (beyond the peaks of the base) so that the whole sequence can
+/// run: for each truncation the nodes it reads that still are the base's own entries (array index
+/// below the smallest length reached so far); everything else was pushed by an earlier append.
+fn sequence_needs(base: u64, ops: &[Op]) -> Vec<(u64, u32)> {
+    let mut need = Vec::new();
+    let mut n = base;
+    let mut min_len = array_len(base);
+    for op in ops {
+        match op {
+            Op::Append => n += 1,
+            Op::Truncate => {
+                for (f, b) in truncate_needs(n) {
+                    if pos(f, b) < min_len && !need.contains(&(f, b)) {
+                        need.push((f, b));
+                    }
+                }
+                n -= 1;
+                min_len = min_len.min(array_len(n));
+            }
+        }
+    }
+    need
+}
+
+fn check_sequence<V: Ver>(cfg: &Cfg, forest: &Forest, base: u64, ops: &[Op]) -> Result<(), String> {
+    let r = catch(|| -> Result<(), String> {
+        let need = sequence_needs(base, ops);
+        for (what, extra) in [("fully loaded", full_extra(base)), ("partial view", need)] {
+            let mut t = view::<V>(forest, base, &extra);
+            let mut fresh: Vec<Option<RNode>> = vec![None; base as usize];
+            for (step, op) in ops.iter().enumerate() {
+                let n = fresh.len() as u64;
+                let w = format!("{what}, step {} of {}", step + 1, ops_to_str(ops));
+                match op {
+                    Op::Append => {
+                        let new = leaf(cfg.ver, &cfg.profile, n, step as u64 + 1, cfg.total);
+                        fresh.push(Some(new.clone()));
+                        let want = root_over(forest, &fresh).ok_or("model overflow (machinery)")?;
+                        let added = new_entries(&|f, b| refmmr::node_over(forest, &fresh, f, b), n).ok_or("model overflow (machinery)")?;
+                        do_append(&mut t, &new, n, &want, &added, &w)?;
+                    }
+                    Op::Truncate => {
+                        fresh.pop();
+                        let want = root_over(forest, &fresh).ok_or("model overflow (machinery)")?;
+                        do_truncate(&mut t, n, &want, &w)?;
+                    }
+                }
+            }
+        }
+        Ok(())
+    });
+    match r {
+        Ok(x) => x,
+        Err(p) => Err(format!("panic: {p}")),
+    }
+}
+
+/// All op strings of length 1..=maxlen that never truncate the last leaf away.
+fn sequences(base: u64, maxlen: usize) -> Vec<Vec<Op>> {
+    let mut out = Vec::new();
+    fn rec(n: u64, cur: &mut Vec<Op>, maxlen: usize, out: &mut Vec<Vec<Op>>) {
+        if !cur.is_empty() {
+            out.push(cur.clone());
+        }
+        if cur.len() == maxlen {
+            return;
+        }
+        cur.push(Op::Append);
+        rec(n + 1, cur, maxlen, out);
+        cur.pop();
+        if n >= 2 {
+            cur.push(Op::Truncate);
+            rec(n - 1, cur, maxlen, out);
+            cur.pop();
+        }
+    }
+    rec(base, &mut Vec::new(), maxlen, &mut out);
+    out
+}
+
+// ---------------------------------------------------------------------------------------------
+// node encodings: truncations and byte rewrites
+
+fn check_bytes<V: Ver>(branch: u32, bytes: &[u8]) -> Result<String, String> {
+    let want = refmmr::parse(V::V, branch, bytes);
+    let got = catch(|| V::from_bytes(branch, bytes).map(|d| (V::model(&d), V::to_bytes(&d))));
+    match (got, want) {
+        (Err(p), _) => Err(format!("panic: {p}")),
+        (Ok(Ok((node, re))), Ok((wnode, used))) => {
+            if node != wnode {
+                return Err(format!("parsed node differs from the documented layout in [{}]", diff(&node, &wnode)));
+            }
+            if re != bytes[..used] {
+                return Err("accepted encoding does not re-encode to the bytes consumed".into());
+            }
+            Ok("accept".into())
+        }
+        (Ok(Err(_)), Err(why)) => Ok(format!("reject:{why}")),
+        (Ok(Ok(_)), Err(why)) => Err(format!("accepted, but the documented rule rejects it: {why}")),
+        (Ok(Err(e)), Ok(_)) => Err(format!("rejected ({e:?}), but it is a well-formed canonical encoding")),
+    }
+}
+
+fn check_entry_bytes<V: Ver>(branch: u32, bytes: &[u8]) -> Result<String, String> {
+    // kind byte: 0 = node with two LE32 links, 1 = leaf, anything else invalid
+    let want: Result<(Option<(u32, u32)>, RNode), &'static str> = match bytes.first() {
+        None => Err("eof"),
+        Some(0) if bytes.len() < 9 => Err("eof"),
+        Some(0) => refmmr::parse(V::V, branch, &bytes[9..]).map(|(n, _)| {
+            (Some((u32::from_le_bytes(bytes[1..5].try_into().unwrap()), u32::from_le_bytes(bytes[5..9].try_into().unwrap()))), n)
+        }),
+        Some(1) => refmmr::parse(V::V, branch, &bytes[1..]).map(|(n, _)| (None, n)),
+        Some(_) => Err("kind"),
+    };
+    let got = catch(|| {
+        Entry::<V>::from_bytes(branch, bytes).map(|e| {
+            let kids = if e.leaf() { None } else { Some((e.left().ok().and_then(stored_idx), e.right().ok().and_then(stored_idx))) };
+            (kids, V::model(e.data()))
+        })
+    });
+    match (got, want) {
+        (Err(p), _) => Err(format!("panic: {p}")),
+        (Ok(Ok((kids, node))), Ok((wk, wn))) => {
+            if node != wn || kids != wk.map(|(l, r)| (Some(l), Some(r))) {
+                return Err("parsed entry differs from the documented layout".into());
+            }
+            Ok("entry-accept".into())
+        }
+        (Ok(Err(_)), Err(why)) => Ok(format!("entry-reject:{why}")),
+        (Ok(Ok(_)), Err(why)) => Err(format!("entry accepted, but the documented rule rejects it: {why}")),
+        (Ok(Err(e)), Ok(_)) => Err(format!("entry rejected ({e:?}), but it is well-formed")),
+    }
+}
+
+/// The byte lattice applied to one encoding: every truncation, every position rewritten to each
+/// of {00, 01, fc, fd, fe, ff, orig^01, orig^80} (all 256 values on compact-size flag bytes and
+/// the first payload byte after them), and trailing bytes.
+fn byte_variants(enc: &[u8], cs_positions: &[usize]) -> Vec<(String, Vec<u8>)> {
+    let mut v: Vec<(String, Vec<u8>)> = (0..enc.len()).map(|n| (format!("cut@{n}"), enc[..n].to_vec())).collect();
+    for p in 0..enc.len() {
+        let mut vals: Vec<u8> = if cs_positions.contains(&p) { (0..=255).collect() } else { vec![0, 1, 0xfc, 0xfd, 0xfe, 0xff, enc[p] ^ 1, enc[p] ^ 0x80] };
+        vals.sort();
+        vals.dedup();
+        for x in vals {
+            if x != enc[p] {
+                let mut e = enc.to_vec();
+                e[p] = x;
+                v.push((format!("byte[{p}]={x:02x}"), e));
+            }
+        }
+    }
+    for (name, tail) in [("tail+00", &[0u8][..]), ("tail+ff*9", &[0xff; 9][..])] {
+        let mut e = enc.to_vec();
+        e.extend_from_slice(tail);
+        v.push((name.into(), e));
+    }
+    v.push(("unchanged".into(), enc.to_vec()));
+    v
+}
+
+/// Offsets of the compact-size fields (flag byte and the byte after it) inside a node encoding.
+fn cs_positions(ver: u8, n: &RNode) -> Vec<usize> {
+    let mut v = Vec::new();
+    let mut at = 32 + 16 + 64 + 32;
+    let mut field = |at: &mut usize, val: u64| {
+        v.push(*at);
+        v.push(*at + 1);
+        *at += refmmr::compact_size(val).len();
+    };
+    field(&mut at, n.start_height);
+    field(&mut at, n.end_height);
+    field(&mut at, n.sapling_tx);
+    if ver >= 2 {
+        at += 64;
+        field(&mut at, n.orchard_tx);
+    }
+    if ver >= 3 {
+        at += 64;
+        field(&mut at, n.ironwood_tx);
+    }
+    v
+}
+
+fn check_bytes_dyn(ver: u8, branch: u32, entry: bool, bytes: &[u8]) -> Result<String, String> {
+    if entry {
+        by_version!(ver, check_entry_bytes(branch, bytes))
+    } else {
+        by_version!(ver, check_bytes(branch, bytes))
+    }
+}
+
+// compact sizes directly
+fn check_compact(value: Option<u64>, raw: Option<&[u8]>) -> Result<String, String> {
+    use zcash_encoding_local::CompactSize;
+    let r = catch(|| -> Result<String, String> {
+        if let Some(v) = value {
+            let mut w = Vec::new();
+            CompactSize::write_unbounded(&mut w, v).map_err(|e| format!("write_unbounded({v}): {e:?}"))?;
+            if w != refmmr::compact_size(v) {
+                return Err(format!("write_unbounded({v}) = {}", hex::encode(&w)));
+            }
+            match CompactSize::read_unbounded(&w[..]) {
+                Ok(x) if x == v => {}
+                g => return Err(format!("read_unbounded(write_unbounded({v})) = {g:?}")),
+            }
+            // the bounded reader applies the 0x02000000 consensus limit; the unbounded one must not
+            match (CompactSize::read(&w[..]), v <= 0x0200_0000) {
+                (Ok(x), true) if x == v => Ok("cs:in-bound".into()),
+                (Err(_), false) => Ok("cs:above-bound".into()),
+                (g, _) => Err(format!("CompactSize::read of {v}: {g:?}")),
+            }
+        } else {
+            let b = raw.unwrap();
+            match (CompactSize::read_unbounded(b), refmmr::read_compact_size(b)) {
+                (Ok(x), Ok((y, _))) if x == y => Ok("cs-raw:accept".into()),
+                (Err(_), Err(why)) => Ok(format!("cs-raw:reject:{why}")),
+                (g, w) => Err(format!("read_unbounded({}) = {g:?}, documented rule: {w:?}", hex::encode(b))),
+            }
+        }
+    });
+    match r {
+        Ok(x) => x,
+        Err(p) => Err(format!("panic: {p}")),
+    }
+}
+
+const CS_VALUES: &[u64] = &[
+    0, 1, 251, 252, 253, 254, 255, 256, 0xfffe, 0xffff, 0x1_0000, 0x1_0001, 0x1ff_ffff, 0x200_0000, 0x200_0001, 0xffff_fffe, 0xffff_ffff, 0x1_0000_0000, 0x1_0000_0001,
+    1 << 63, u64::MAX - 1, u64::MAX,
+];
+
+// ---------------------------------------------------------------------------------------------
+// the graph search
+
+struct Graph<'a, V: Ver> {
+    run: &'a Run,
+    forest: &'a Forest,
+    nmax: u64,
+    _v: PhantomData<V>,
+}
+
+impl<V: Ver> Graph<'_, V> {
+    fn note(&self, outs: Outs) {
+        for o in outs {
+            self.run.outcome(&o);
+        }
+    }
+}
+
+impl<V: Ver> Subject for Graph<'_, V> {
+    type State = u64;
+    type Op = Op;
+    fn ops(&self, s: &u64, _depth: usize) -> Vec<Op> {
+        let mut v = Vec::new();
+        if *s < self.nmax {
+            v.push(Op::Append);
+        }
+        v.push(Op::Truncate);
+        v
+    }
+    fn step(&self, s: &u64, op: &Op) -> Result<Option<u64>, String> {
+        let mut outs = Vec::new();
+        let r = check_transition::<V>(self.forest, *s, *op, &mut outs);
+        self.note(outs);
+        r?;
+        Ok(match op {
+            Op::Append => Some(*s + 1),
+            Op::Truncate if *s >= 2 => Some(*s - 1),
+            Op::Truncate => None,
+        })
+    }
+    fn key(&self, s: &u64) -> Vec<u8> {
+        s.to_le_bytes().to_vec()
+    }
+    fn check(&self, s: &u64) -> Result<(), String> {
+        let mut outs = Vec::new();
+        let r = check_state::<V>(self.forest, *s, &mut outs);
+        self.note(outs);
+        r
+    }
+}
+
+/// The same graph as a stateright model (second engine): `next_state` executes the transition on
+/// the real tree, the `always` property evaluates the state check on the real tree.
+struct SrModel<V: Ver> {
+    forest: Arc<Forest>,
+    nmax: u64,
+    fails: Arc<Mutex<Vec<(u64, Op, String)>>>,
+    _v: PhantomData<fn() -> V>,
+}
+
+impl<V: Ver> stateright::Model for SrModel<V> {
+    type State = u64;
+    type Action = Op;
+    fn init_states(&self) -> Vec<u64> {
+        vec![1]
+    }
+    fn actions(&self, s: &u64, a: &mut Vec<Op>) {
+        if *s < self.nmax {
+            a.push(Op::Append);
+        }
+        if *s >= 2 {
+            a.push(Op::Truncate);
+        }
+    }
+    fn next_state(&self, s: &u64, a: Op) -> Option<u64> {
+        match check_transition::<V>(&self.forest, *s, a, &mut Vec::new()) {
+            Err(m) => {
+                self.fails.lock().unwrap().push((*s, a, m));
+                None
+            }
+            Ok(()) => Some(if a == Op::Append { *s + 1 } else { *s - 1 }),
+        }
+    }
+    fn properties(&self) -> Vec<stateright::Property<Self>> {
+        vec![stateright::Property::always("root equals the from-scratch rebuild", |m: &SrModel<V>, s: &u64| check_state::<V>(&m.forest, *s, &mut Vec::new()).is_ok())]
+    }
+}
+
+struct GraphOut {
+    states: u64,
+    transitions: u64,
+    sr_unique_states: u64,
+    capped: Option<String>,
+    /// (leaf count before the failing element, failing op or None for a state check, message)
+    cex: Vec<(u64, Option<Op>, String)>,
+}
+
+fn search<V: Ver>(run: &Run, cfg: &Cfg, nmax: u64, wall: f64) -> Result<GraphOut, String> {
+    let forest = cfg.forest()?;
+    let g = Graph::<V> { run, forest: &forest, nmax, _v: PhantomData };
+    let (stats, cex) = bfs(&g, vec![1u64], &Limits { max_depth: usize::MAX, max_states: u64::MAX, max_wall_s: wall }, 8);
+    let mut out = Vec::new();
+    for c in cex {
+        // the history is an op list from the one-leaf tree; the failing element is its last op, or
+        // the state it leads to when the whole history is executable
+        let mut n = 1u64;
+        let mut failing: Option<Op> = None;
+        for (i, op) in c.history.iter().enumerate() {
+            let last = i + 1 == c.history.len();
+            if last && check_transition::<V>(&forest, n, *op, &mut Vec::new()).is_err() {
+                failing = Some(*op);
+                break;
+            }
+            n = if *op == Op::Append { n + 1 } else { n - 1 };
+        }
+        out.push((n, failing, c.msg));
+    }
+    // second engine
+    use stateright::{Checker, Model};
+    let fails = Arc::new(Mutex::new(Vec::new()));
+    let checker = SrModel::<V> { forest: Arc::new(forest), nmax, fails: fails.clone(), _v: PhantomData }.checker().spawn_bfs().join();
+    let sr_unique_states = checker.unique_state_count() as u64;
+    if let Some(path) = checker.discovery("root equals the from-scratch rebuild") {
+        let n = *path.last_state();
+        if !out.iter().any(|(m, op, _)| *m == n && op.is_none()) {
+            out.push((n, None, "stateright: the always-property 'root equals the from-scratch rebuild' fails in this state".into()));
+        }
+    }
+    for (n, op, m) in fails.lock().unwrap().iter() {
+        if !out.iter().any(|(x, o, _)| x == n && *o == Some(*op)) {
+            out.push((*n, Some(*op), m.clone()));
+        }
+    }
+    Ok(GraphOut { states: stats.states, transitions: stats.transitions, sr_unique_states, capped: stats.capped, cex: out })
+}
+
+// ---------------------------------------------------------------------------------------------
+
+pub fn replay(kind: &str, case: &Value) -> Result<(), String> {
+    match kind {
+        "state" | "transition" => {
+            let cfg = Cfg::from_json(&case["cfg"])?;
+            let forest = cfg.forest()?;
+            let n = case["n"].as_u64().ok_or("no n")?;
+            if n == 0 || n + 1 > cfg.total {
+                return Err("n out of range".into());
+            }
+            let mut o = Vec::new();
+            if kind == "state" {
+                by_version!(cfg.ver, check_state(&forest, n, &mut o))
+            } else {
+                let op = ops_from_str(case["op"].as_str().unwrap_or(""))?;
+                if op.len() != 1 {
+                    return Err("one op expected".into());
+                }
+                by_version!(cfg.ver, check_transition(&forest, n, op[0], &mut o))
+            }
+        }
+        "sequence" => {
+            let cfg = Cfg::from_json(&case["cfg"])?;
+            let forest = cfg.forest()?;
+            let base = case["base"].as_u64().ok_or("no base")?;
+            let ops = ops_from_str(case["ops"].as_str().unwrap_or(""))?;
+            if base == 0 || base + ops.len() as u64 > cfg.total {
+                return Err("sequence leaves the prepared leaf range".into());
+            }
+            by_version!(cfg.ver, check_sequence(&cfg, &forest, base, &ops))
+        }
+        "bytes" => {
+            let b = hex::decode(case["bytes"].as_str().unwrap_or("")).map_err(|e| e.to_string())?;
+            check_bytes_dyn(case["ver"].as_u64().unwrap_or(0) as u8, case["branch"].as_u64().unwrap_or(0) as u32, case["entry"].as_bool().unwrap_or(false), &b).map(|_| ())
+        }
+        "compact" => {
+            if let Some(v) = case["value"].as_str() {
+                check_compact(Some(v.parse::<u64>().map_err(|e| e.to_string())?), None).map(|_| ())
+            } else {
+                let b = hex::decode(case["raw"].as_str().unwrap_or("")).map_err(|e| e.to_string())?;
+                check_compact(None, Some(&b)).map(|_| ())
+            }
+        }
+        _ => Err(format!("unknown kind {kind}")),
+    }
+}
+
+pub fn run(args: &Args) -> i32 {
+    let run = Run::new(args, "model_checking");
+    let nmax: u64 = args.tier.pick(64, 1032);
+    let seq_base_max: u64 = args.tier.pick(32, 64);
+    let seq_len: usize = args.tier.pick(7, 10);
+    run.set_rule(&format!(
+        "state graph: leaf count n in 1..={nmax} per (version V1/V2/V3, leaf profile), transitions append/truncate, each executed on the real Tree \
+         fully loaded and as a minimal partial view, plus every minimal view with one needed node removed; a case is distinct by (version, profile, \
+         n, operation, view). Sequences: every append/truncate string of length 1..={seq_len} from every base n in 1..={seq_base_max} (fresh leaves) on one \
+         Tree object, fully loaded and partial. Encodings: every node produced round-trips; byte lattice (all truncations, each byte rewritten to \
+         8 boundary values / all 256 on compact-size bytes, trailing bytes) on node and entry encodings. Oracle: from-scratch MMR rebuild"
+    ));
+    run.assume("BLAKE2b (blake2b_simd) is trusted; the model serialises and personalises on its own");
+    run.assume("leaf contents keep every counter sum within u64 and the work sum within 256 bits (one leaf may hold u64::MAX / nearly 2^256 while the others hold 0): overflowing sums are outside the property");
+    run.assume("leaves are single blocks with consecutive heights (the tree derives leaf counts from height ranges); truncating a one-leaf tree is outside the domain and only recorded");
+    run.assume("a node encoding is acceptable iff it has enough bytes, canonical compact sizes and an ascending height range whose size fits a u64 (documented on NodeData::read); trailing bytes are ignored by the cursor-based from_bytes");
+    run.assume("the nodes a truncation needs beyond the peaks are both children of every node on the right slope of the last peak (tree.rs docs and examples/long.rs)");
+
+    let cfgs: Vec<Cfg> = PROFILES.iter().flat_map(|p| (1..=3u8).map(move |v| Cfg { ver: v, profile: p.to_string(), total: 0 })).collect();
+
+    // 1. state graph
+    let wall = args.tier.pick(40.0, 420.0);
+    let gouts: Vec<(Cfg, Result<GraphOut, String>)> = cfgs
+        .par_iter()
+        .map(|c| {
+            let cfg = Cfg { total: nmax + 1, ..c.clone() };
+            let r = by_version!(cfg.ver, search(&run, &cfg, nmax, wall));
+            (cfg, r)
+        })
+        .collect();
+    let mut graph_table = Vec::new();
+    for (cfg, r) in gouts {
+        match r {
+            Err(m) => mc_core::machinery_error(&format!("C20 {}: {m}", cfg.tag())),
+            Ok(g) => {
+                // per transition: full + partial (+ restore) executions; counted as 2 traces, plus one per state
+                run.add_graph(g.states, g.transitions, 2 * (g.states + 2 * g.transitions)); // both engines execute every state and transition
+                run.eval_distinct(3 * g.states + 2 * g.transitions);
+                if let Some(c) = &g.capped {
+                    run.cap_hit(&format!("{}: {c}", cfg.tag()));
+                }
+                graph_table.push(json!({"config": cfg.tag(), "states": g.states, "transitions": g.transitions, "stateright_unique_states": g.sr_unique_states}));
+                run.require(!g.cex.is_empty() || g.capped.is_some() || g.states == g.sr_unique_states, &format!("{}: the two engines disagree on the number of states ({} vs {})", cfg.tag(), g.states, g.sr_unique_states));
+                for (n, op, msg) in g.cex {
+                    match op {
+                        Some(op) => run.fail("transition", format!("{}:n={n}:{}", cfg.tag(), ops_to_str(&[op])), msg, json!({"cfg": cfg.json(), "n": n, "op": ops_to_str(&[op])})),
+                        None => run.fail("state", format!("{}:n={n}", cfg.tag()), msg, json!({"cfg": cfg.json(), "n": n})),
+                    }
+                }
+            }
+        }
+    }
+    run.section("state_graph", json!(graph_table));
+    run.sample(json!({"graph": "V2/cs253, n=6 -> truncate", "minimal_view": "peaks {6 (4 leaves), 9 (2 leaves)} + extra {7, 8}", "expected": "root == rebuild over 5 leaves, len 8, returns 2; without node 7 or 8: ExpectedInMemory"}));
+
+    // 2. operation sequences
+    let seq_total = seq_base_max + seq_len as u64;
+    let jobs: Vec<(Cfg, u64)> = cfgs.iter().flat_map(|c| (1..=seq_base_max).map(move |b| (Cfg { total: seq_total, ..c.clone() }, b))).collect();
+    let forests: BTreeMap<String, Forest> = cfgs
+        .iter()
+        .map(|c| {
+            let cfg = Cfg { total: seq_total, ..c.clone() };
+            (cfg.tag(), cfg.forest().unwrap_or_else(|m| mc_core::machinery_error(&m)))
+        })
+        .collect();
+    let souts: Vec<(u64, u64, Vec<(String, String, Value)>)> = jobs
+        .par_iter()
+        .map(|(cfg, base)| {
+            let forest = &forests[&cfg.tag()];
+            let mut fails = Vec::new();
+            let (mut cnt, mut steps) = (0u64, 0u64);
+            for ops in sequences(*base, seq_len) {
+                cnt += 1;
+                steps += ops.len() as u64;
+                let r: Result<(), String> = by_version!(cfg.ver, check_sequence(cfg, forest, *base, &ops));
+                if let Err(m) = r {
+                    if fails.len() < 3 {
+                        fails.push((format!("{}:base={base}:{}", cfg.tag(), ops_to_str(&ops)), m, json!({"cfg": cfg.json(), "base": base, "ops": ops_to_str(&ops)})));
+                    }
+                }
+            }
+            (cnt, steps, fails)
+        })
+        .collect();
+    let (mut seqs, mut steps) = (0u64, 0u64);
+    for (c, s, fails) in souts {
+        seqs += c;
+        steps += s;
+        for (k, m, case) in fails {
+            run.fail("sequence", k, m, case);
+        }
+    }
+    run.eval_distinct(2 * seqs);
+    run.add_graph(0, 2 * steps, 2 * seqs);
+    run.outcome_n("sequence:agrees", seqs);
+    run.section("sequences", json!({"sequences": seqs, "operations_executed_per_view": steps, "views": 2, "base_max": seq_base_max, "max_len": seq_len}));
+    run.sample(json!({"sequence": "V3/extreme base=7 ops=TTAATA", "expected": "after every step root == rebuild over the current (fresh) leaves, on the full and the partial view"}));
+
+    // 3. encodings: byte lattice on node and entry encodings
+    let mut enc_cases = 0u64;
+    let mut enc_out: BTreeMap<String, u64> = BTreeMap::new();
+    for c in &cfgs {
+        let cfg = Cfg { total: 9, ..c.clone() };
+        let forest = cfg.forest().unwrap_or_else(|m| mc_core::machinery_error(&m));
+        let picks: Vec<(&str, RNode, Option<(u32, u32)>)> = vec![
+            ("leaf0", forest.node(0, 0).clone(), None),
+            ("leaf2", forest.node(2, 0).clone(), None),
+            ("node(0,1)", forest.node(0, 1).clone(), Some((0, 1))),
+            ("root7", forest.root(7).unwrap(), Some((u32::MAX, 0x0100_0000))),
+        ];
+        for (name, node, kids) in picks {
+            let enc = refmmr::serialize(cfg.ver, &node);
+            let csp = cs_positions(cfg.ver, &node);
+            for (what, v) in byte_variants(&enc, &csp) {
+                enc_cases += 1;
+                match check_bytes_dyn(cfg.ver, node.branch, false, &v) {
+                    Ok(o) => *enc_out.entry(format!("bytes:{o}")).or_insert(0) += 1,
+                    Err(m) => run.fail("bytes", format!("bytes:{}:{name}:{what}", cfg.tag()), m, json!({"ver": cfg.ver, "branch": node.branch, "entry": false, "bytes": hex::encode(&v)})),
+                }
+            }
+            // entry encoding: kind byte and links rewritten, every truncation
+            let mut eenc = match kids {
+                None => vec![1u8],
+                Some((l, r)) => {
+                    let mut v = vec![0u8];
+                    v.extend_from_slice(&l.to_le_bytes());
+                    v.extend_from_slice(&r.to_le_bytes());
+                    v
+                }
+            };
+            let hdr = eenc.len();
+            eenc.extend_from_slice(&enc);
+            let mut variants: Vec<(String, Vec<u8>)> = (0..=eenc.len()).map(|n| (format!("cut@{n}"), eenc[..n].to_vec())).collect();
+            for k in 0..=255u8 {
+                if k != eenc[0] {
+                    let mut e = eenc.clone();
+                    e[0] = k;
+                    variants.push((format!("kind={k:02x}"), e));
+                }
+            }
+            for p in 1..hdr {
+                let mut vals = vec![0u8, 1, 0xff, eenc[p] ^ 0x80];
+                vals.sort();
+                vals.dedup();
+                for x in vals {
+                    if x != eenc[p] {
+                        let mut e = eenc.clone();
+                        e[p] = x;
+                        variants.push((format!("byte[{p}]={x:02x}"), e));
+                    }
+                }
+            }
+            for (what, v) in variants {
+                enc_cases += 1;
+                match check_bytes_dyn(cfg.ver, node.branch, true, &v) {
+                    Ok(o) => *enc_out.entry(format!("bytes:{o}")).or_insert(0) += 1,
+                    Err(m) => run.fail("bytes", format!("entry-bytes:{}:{name}:{what}", cfg.tag()), m, json!({"ver": cfg.ver, "branch": node.branch, "entry": true, "bytes": hex::encode(&v)})),
+                }
+            }
+        }
+    }
+    // height-range rule on encodings: every ordered pair of boundary heights
+    for ver in 1..=3u8 {
+        for &s in CS_VALUES {
+            for &e in CS_VALUES {
+                let mut n = leaf(ver, "plain", 0, 0, 1);
+                n.start_height = s;
+                n.end_height = e;
+                let enc = refmmr::serialize(ver, &n);
+                enc_cases += 1;
+                match check_bytes_dyn(ver, n.branch, false, &enc) {
+                    Ok(o) => *enc_out.entry(format!("heights:{o}")).or_insert(0) += 1,
+                    Err(m) => run.fail("bytes", format!("heights:V{ver}:{s}..{e}"), m, json!({"ver": ver, "branch": n.branch, "entry": false, "bytes": hex::encode(&enc)})),
+                }
+            }
+        }
+    }
+    // compact sizes directly
+    for &v in CS_VALUES {
+        enc_cases += 1;
+        match check_compact(Some(v), None) {
+            Ok(o) => *enc_out.entry(o).or_insert(0) += 1,
+            Err(m) => run.fail("compact", format!("compact:{v}"), m, json!({"value": v.to_string()})),
+        }
+    }
+    for flag in [0xfcu8, 0xfd, 0xfe, 0xff] {
+        for &v in CS_VALUES {
+            for cut in [false, true] {
+                let mut raw = vec![flag];
+                raw.extend_from_slice(&v.to_le_bytes());
+                let w = match flag {
+                    0xfd => 3,
+                    0xfe => 5,
+                    0xff => 9,
+                    _ => 1,
+                };
+                raw.truncate(if cut { w - 1 } else { w });
+                enc_cases += 1;
+                match check_compact(None, Some(&raw)) {
+                    Ok(o) => *enc_out.entry(o).or_insert(0) += 1,
+                    Err(m) => run.fail("compact", format!("compact-raw:{}", hex::encode(&raw)), m, json!({"raw": hex::encode(&raw)})),
+                }
+            }
+        }
+    }
+    for (k, v) in enc_out {
+        run.outcome_n(&k, v);
+    }
+    run.eval_distinct(enc_cases);
+    run.section("encodings", json!({"cases": enc_cases}));
+
+    run.require(run.outcomes_distinct() >= 20 || run.failure_count() > 0, "fewer than 20 distinct outcome classes observed");
+    run.finish(&replay)
 }
